@@ -66,6 +66,7 @@ public:
   bool is_copy_assignable(CPPVisibility min_vis) const;
   bool is_move_assignable(CPPVisibility min_vis = V_public) const;
   bool is_destructible(CPPVisibility min_vis) const;
+  void get_constructed_bases(std::vector<CPPStructType *> &bases) const;
   virtual bool is_convertible_to(const CPPType *other) const;
 
   inline bool is_final() const { return _final; }
